@@ -283,4 +283,7 @@ def check(model, tier):
     else:
         run.ok("R18.1", "execute:short-circuits")
     run.assume("leaf payloads supplied by callers are RowIterable objects whose __iter__ can be called repeatedly")
+    from ..rules.foundation import run_foundation
+
+    run_foundation(ctx, "18")
     return run
